@@ -318,6 +318,11 @@ func (db *DB) OpenTransaction() (*Transaction, error) {
 		if _, err := db.rotateMem(0, true); err != nil {
 			return nil, err
 		}
+	} else if err := db.compTriggerWait(db.mcompCmdC); err != nil {
+		// A frozen memdb, if any, must be flushed before the transaction
+		// records its sequence number.
+		<-db.writeLockC
+		return nil, err
 	}
 
 	// Wait compaction when certain threshold reached.
